@@ -287,7 +287,13 @@ def gen_machine_program(r: Rng, feat: Dict[str, bool], size: int) -> Dict:
             else:
                 a.op("MV_A_KIL")
         elif kind == "strobe":
-            a.op("MV_KOL", r.choice([0xFF, 0x00, 0x01, 0x02, 0x10, 0x55]))
+            val = r.choice([0xFF, 0x00, 0x01, 0x02, 0x10, 0x55])
+            if feat.get("wide_strobe") and r.chance(1, 3):
+                # the strobe register written as the upper byte of a 16-bit store that starts below it
+                # (MVW (AMC),imm16: AMC <- 00, KOL <- val)
+                a.emit([0x32, 0xCD, 0xEF, 0x00, val], "MVW_AMC_KOL")
+            else:
+                a.op("MV_KOL", val)
         elif kind == "pushpop":
             a.op("PUSHU_IMR")
             for _ in range(r.range(1, 3)):
